@@ -19,7 +19,7 @@ CONSTANTS
     MaxSur = 1
     MaxRo = 1
     MaxComps = {maxc}
-    Fns = {{"one", "two", "id", "neg", "dbl", "inc", "step", "dsum", "add", "sub", "mul", "sel", "cut", "swp", "mad"}}
+    Fns = {{"one", "two", "id", "neg", "dbl", "inc", "step", "dsum", "add", "sub", "mul", "sel", "cut", "swp", "pos", "mad"}}
     UseData = TRUE
     ForwardRefs = {fwd}
     WithJac = FALSE
